@@ -49,7 +49,7 @@ Definition ex_tbl : list layout := [
   mkLayout "rset" (Some 2) [mkAF KReg (WA AR); mkAF KNum (WA ARsize)]
            (Some (WPlus (WPlus (WA AOp) (WA AR)) (WA ARsize))) (WPlus (WPlus (WA AOp) (WA AR)) (WA ARsize))
            [mkDF (WC 0) (WA AR) PReg; mkDF (WA AR) (WPlus (WA AR) (WA ARsize)) PNumU]].
-Definition ex_arch := mkArch 8 2 1 1 0 4 ["j"; "rset"] 0 Ha.
+Definition ex_arch := mkArch 8 2 1 1 0 4 ["j"; "rset"] 0 Ha [].
 Example ex_accepts_and_rejects :
   forallb layout_rt_ok ex_tbl = true /\
   asm ex_tbl ex_arch ["rset"; "r3"; "0x1f"] = Some [true; true;true; false;false;false;true;true;true;true;true] /\
@@ -61,7 +61,7 @@ Proof. vm_compute. repeat split; reflexivity. Qed.
 
 (* 64-bit immediates survive the round trip since the rset disassembler prints them unsigned
    (fix: rset disassembler ...); a field printed through strconv.Itoa is limited to 63 bits *)
-Definition ex_arch64 := mkArch 64 2 1 1 0 4 ["j"; "rset"] 0 Ha.
+Definition ex_arch64 := mkArch 64 2 1 1 0 4 ["j"; "rset"] 0 Ha [].
 Definition w64 : bstr :=
   Eval vm_compute in match asm ex_tbl ex_arch64 ["rset"; "r0"; "0xffffffffffffffff"] with Some w => w | None => [] end.
 Example ex_64bit_immediate :
